@@ -139,20 +139,22 @@ def witnesses():
         ("ok:D19-nontensor-promotion", {"spec": {"root": base, "lock": "lock_"}, "ops": [{"op": "nt_setitem", "node": 0, "leaf": 0, "idx": 0, "v": 7}]}),
         ("ok:S4-nontensor-set_at", {"spec": {"root": base, "lock": "lock_"}, "ops": [{"op": "nt_set_at", "node": 0, "leaf": 0, "idx": 0, "v": 7}]}),
         ("ok:D60-make_memmap", {"spec": {"root": base, "lock": "memmap_"}, "ops": [{"op": "make_memmap", "node": 0, "which": 0, "v": 2}]}),
-        # D69: the nested tensordict that make_memmap*(nested key) attaches under lock is not locked: it is written structurally
-        # below the root's memoised results (nodes after the first op: root, n, mn1)
-        ("nested-node-attached-under-lock", {"spec": {"root": base, "lock": "memmap_"}, "ops": [{"op": "make_memmap_from_tensor", "node": 0, "which": 1, "v": 2},
-                                                                                            {"op": "struct_fail", "node": 2, "which": 0}]}),
+        # D69 repaired: the nested tensordict that make_memmap*(nested key) attaches under lock is locked and registered under the
+        # root: it is neither written structurally nor unlocked alone (nodes after the first op: root, n, mn1)
+        ("ok:D69-nested-node-attached-under-lock", {"spec": {"root": base, "lock": "memmap_"},
+                                                    "ops": [{"op": "make_memmap_from_tensor", "node": 0, "which": 1, "v": 2}, {"op": "struct_fail", "node": 2, "which": 0},
+                                                            {"op": "sub_unlock", "node": 1}, {"op": "add_", "node": 0, "v": 2}],
+                                                    "expect": {"1": "ok", "2": "raise:LockError", "3": "raise:LockError", "4": "ok"}}),
         ("ok:D61-memmap_under_lock", {"spec": {"root": base, "lock": "lock_"}, "ops": [{"op": "memmap_under_lock"}, {"op": "set_", "node": 0, "leaf": 2, "v": 5}]}),
         # D62 (consequence of D7) is repaired: memmap_ builds the lock graph, the nested node cannot be unlocked alone (the Coq
         # theorem C06_memmap_subtree_unlock_refused is this history); clean afterwards
         ("ok:memmap-subtree-unlock-refused", {"spec": {"root": base, "lock": "memmap_"},
                                               "ops": [{"op": "mm_sub_unlock_edit", "node": 0, "v": 4}, {"op": "sub_unlock", "node": 0}, {"op": "add_", "node": 0, "v": 2}],
                                               "expect": {"1": "raise:LockError", "2": "raise:LockError", "3": "ok"}}),
-        # D68: the refused unlock_ of ONE member of a lazy stack inside a memory-mapped tree leaves _is_memmap cleared on that member
-        # (nodes: root, lz, lz/#0, lz/#1, lz/#2)
-        ("refused-unlock-clears-memmap-flag", {"spec": {"root": inner, "lock": "memmap_"}, "ops": [{"op": "sub_unlock", "node": 1}],
-                                               "expect": {"1": "raise:LockError"}}),
+        # D68 repaired: the refused unlock_ of ONE member of a lazy stack inside a memory-mapped tree leaves _is_memmap of that member
+        # as it was: the stack's is_memmap() keeps answering (nodes: root, lz, lz/#0, lz/#1, lz/#2)
+        ("ok:D68-refused-unlock-keeps-memmap-flag", {"spec": {"root": inner, "lock": "memmap_"}, "ops": [{"op": "sub_unlock", "node": 1}, {"op": "add_", "node": 0, "v": 2}],
+                                                     "expect": {"1": "raise:LockError", "2": "ok"}}),
         ("ok:D63-names-under-lock", {"spec": {"root": named, "lock": "lock_"}, "ops": [{"op": "names", "node": 0, "which": 1}]}),
         ("ok:D63-batch_size-under-lock", {"spec": {"root": base, "lock": "lock_"}, "ops": [{"op": "batch_size", "node": 0}]}),
         ("ok:S11-lazy-names", {"spec": {"root": lazy_named, "lock": "lock_"}, "ops": [{"op": "names", "node": 1, "which": 1}, {"op": "names", "node": 2, "which": 1},
@@ -432,8 +434,13 @@ def replay(body):
     torch.set_num_threads(1)
     from .c06_hist import run_program
     case = body["case"]
-    prog = {"spec": case["spec"], "ops": case["ops"], "fronts": case.get("fronts"), "expect": case.get("expect")}
+    prog = {"spec": case["spec"], "ops": case["ops"], "fronts": case.get("fronts"), "expect": case.get("expect"), "stream": case.get("stream")}
     print("program:", json.dumps(prog))
+    if prog["stream"] == "model":
+        # a model-level history (other op vocabulary): only the correspondence is replayed
+        from . import c06_model
+        c06_model.replay(prog)
+        return 0
     r = run_program(prog)
     for s in r.steps:
         print("step", s)
